@@ -77,3 +77,47 @@ package bytesconv
 //@ extern errors.New(text) r
 //@   allocates
 //@   ensures r != nil
+
+// ---- the abstract reader: assumed contracts of network.Reader (its implementation is C13, not applicable) ----
+// pos: bytes consumed so far; wire(r, k): k-th byte of the stream; avail: bytes buffered and not yet
+// consumed; failed: a Peek has reported an error.
+//@ ghost field network.Reader.pos int
+//@ ghost field network.Reader.avail int
+//@ ghost field network.Reader.failed bool
+
+//@ interface network.Reader.Peek(this, n) p, err
+//@   modifies this.avail, this.failed, mem
+//@   allocates
+//@   ensures len(p) <= n && (err == nil ==> len(p) == n && this.avail >= n) && (err != nil ==> this.failed) && (old(this.failed) ==> this.failed)
+//@   ensures forall(k, 0, len(p), p[k] == wire(this, this.pos + k))
+//@   ensures this.avail >= 0
+//@ interface network.Reader.Skip(this, n) err
+//@   modifies this.pos, this.avail
+//@   ensures err == nil ==> this.pos == old(this.pos) + n && this.avail == old(this.avail) - n
+//@   ensures err != nil ==> this.pos == old(this.pos) && this.avail == old(this.avail)
+//@   ensures 0 <= n && n <= old(this.avail) ==> err == nil
+//@ interface network.Reader.ReadByte(this) b, err
+//@   modifies this.pos, this.avail, this.failed, mem
+//@   ensures err == nil ==> b == wire(this, old(this.pos)) && this.pos == old(this.pos) + 1
+//@   ensures err != nil ==> this.pos == old(this.pos)
+//@ interface network.Reader.Len(this) n
+//@   ensures n >= 0
+//@ interface network.Reader.Release(this) err
+
+// ---- C01(c)/C04: chunk-size number ----
+//@ pure func hexv(c int) int = Hex2intTable[c]
+//@ pure func pow16(i int) int = ite(i <= 0, 1, ite(i == 1, 16, ite(i == 2, 256, ite(i == 3, 4096, ite(i == 4, 65536, ite(i == 5, 1048576, ite(i == 6, 16777216, ite(i == 7, 268435456, ite(i == 8, 4294967296, ite(i == 9, 68719476736, ite(i == 10, 1099511627776, ite(i == 11, 17592186044416, ite(i == 12, 281474976710656, ite(i == 13, 4503599627370496, ite(i == 14, 72057594037927936, 1152921504606846976)))))))))))))))
+// foldHexW(r, lo, hi, v): continue the hexadecimal accumulator v over stream positions lo..hi-1.
+//@ rec func foldHexW(r int, lo int, hi int, v int) int = ite(lo >= hi, v, foldHexW(r, lo+1, hi, 16*v + hexv(wire(r, lo))))
+
+// ReadHexInt: unless a Peek failed, success means: at least one and at most 15 hex digits were consumed,
+// the result is their value, and the next byte of the stream is not a hex digit (maximal munch).
+//@ func ReadHexInt(r) n, err
+//@   props C01, C03
+//@   requires r != nil
+//@   modifies r.pos, r.avail, r.failed, mem
+//@   allocates
+//@   top-ensures err == nil && !r.failed ==> old(r.pos) < r.pos && r.pos <= old(r.pos) + 15 && 0 <= n && n == foldHexW(r, old(r.pos), r.pos, 0) && hexv(wire(r, r.pos)) == 16
+//@   loop 0:
+//@     invariant 0 <= i && i <= 15 && r.pos == old(r.pos) + i && 0 <= n && n < pow16(i) && (old(r.failed) ==> r.failed)
+//@     invariant forall(h, r.pos, old(r.pos) + 40, foldHexW(r, r.pos, h, n) == foldHexW(r, old(r.pos), h, 0))
